@@ -4,6 +4,7 @@ Model/CachedProperty.v after every action; the property's predicates are evaluat
 import builtins
 import random
 
+import common
 from common import Report, proof_stage, coq_eval_files, parse_nat_list
 import sched as S
 from sched import Sched, Susp, Cancelled
@@ -297,7 +298,7 @@ def run(tier, seed):
         {"lock": True, "susp": 0, "fail_runs": [], "scripts": [AA + AA + ["del"] + AA]},
     ]
     cfgs = fixed + [gen_cfg(rng, small=True) for _ in range(6 if tier == "quick" else 80)]
-    cap = 400 if tier == "quick" else 10000
+    cap = 400 * common.scale(rep) if tier == "quick" else 10000
     for cfg in cfgs:
         for actions in all_schedules(cfg, cap):
             nexh += 1
